@@ -156,6 +156,19 @@ CLAIMS = {
               "update). Two defects found by this check were repaired in /repo (SARSA absorbing initial state; policy at "
               "unvisited states)."),
         ref='DESIGN.md section 4 C10'),
+    'C17': dict(
+        text=("RMAX.train_on is executed with symbolic rewards (one transition pinned to rmax), a symbolic convergence tolerance and "
+              "a nondeterministic generator (all experienced histories within the bound); an event listener passed through the "
+              "public hook records the experience. On every path z3 proves: each step is a real transition with the model's reward, "
+              "every returned Q-value <= rmax/(1-gamma), exactly that optimistic value for every pair tried fewer than m times, for "
+              "pairs tried >= m times the Bellman residual w.r.t. the empirical model rebuilt by the harness from the first m "
+              "logged samples (unknown pairs optimistic) is below the configured tolerance, and the returned policy is uniform over "
+              "exactly the greedy actions of the returned Q-values. A learner trained on a second MDP with a different number of "
+              "states must satisfy the same clauses."),
+        note=("3 skeletons (2-3 states, 2 actions everywhere, discount 1/2 and 9/10), thresholds m in {1,2}, 1-2 episodes, <= 2 "
+              "steps per episode (quick) / 3 (thorough); the inner sweep loop is bounded by a cap of 400 decisions per path (cut "
+              "paths counted). One defect found by this check was repaired in /repo (cached self-transition matrix)."),
+        ref='DESIGN.md section 4 C17'),
     'C20': dict(
         text=("For EVERY layout over the plain grid world's alphabet with a start cell up to 4 cells (quick; 6 in thorough, plus a "
               "menu of larger layouts: goal column cutting the grid, walled-in start, one-row/one-column grids) the real parser "
